@@ -267,9 +267,24 @@ fn run(args: &Args) {
                     (format!("ChannelRequest {}", dbid), json!(["channel_request", dbid]), r.map_err(|_| ()))
                 }
                 _ => {
-                    sys.node = sys.world.restart(&sys.node_id);
-                    restarted = true;
-                    ("NRestart".to_string(), json!("restart"), Ok(true))
+                    match catch_unwind(AssertUnwindSafe(|| sys.world.restart(&sys.node_id))) {
+                        Ok(n) => {
+                            sys.node = n;
+                            // what the restored tracker holds decides which blocks can still be disconnected
+                            let h = sys.node.get_tracker().height() as usize;
+                            let base = if sys.testnet { 0 } else { 0 };
+                            let _ = base;
+                            if sys.undo.len() > h {
+                                sys.undo.truncate(h);
+                            }
+                            restarted = true;
+                            ("NRestart".to_string(), json!("restart"), Ok(true))
+                        }
+                        Err(_) => {
+                            c11.push("the signer cannot be restored from its store (restore panics)".to_string());
+                            ("NRestart".to_string(), json!("restart"), Err(()))
+                        }
+                    }
                 }
             };
             let kind = coq.split(' ').next().unwrap().to_string();
